@@ -58,6 +58,9 @@ GRAMMARS = [
     ('start: (ALPHA|BETA|W)*\nALPHA: "SEL"\nBETA: "sel"i\nW: /[a-z]+/\n%ignore " "', 'SELsel ', 0),
     ('start: (BEGIN|NAME)*\nBEGIN: "BEGIN"\nNAME: /[a-z]+/\n%ignore " "', 'BEGINbegin ', re.I),
     ('start: (KW|ID|OP)*\nKW: "in" | "is"\nID: /[a-z_]+/\nOP: "==" | "="\n%ignore /\\s+/', 'in is_=', 0),
+    # a token retyped by keyword detection is ignored / kept according to the type it ends up with
+    ('start: NAME+\nNAME: /[a-z]+/\n%ignore "x"\n%ignore " "', 'abx ', 0),
+    ('start: (IF|NUM)+\nIF: "if"\nNUM: /[0-9]+/\nCOMMENT: /[a-z]+/\n%ignore COMMENT\n%ignore " "', 'if1a ', 0),
     # a verbose-flag terminal: blanks and comments in its source are not part of what it matches (width 2, not 5)
     ('start: (AB|ABC|C)*\nAB: / a b /x\nABC: /abc/\nC: "c"', 'abc', 0),
     ('start: (D|DT)*\nD: / [0-9] - [0-9]   # date\n /x\nDT: /[0-9]-[0-9]T[0-9]/', '1-T', 0),
